@@ -624,7 +624,29 @@ def extract_recv():
         for n in fn.body:
             sk.visit(n)
         calls[name] = [(g, c) for g, c in sk.calls if RECV_FLOW_KEEP.match(c)]
+    # how cli.Config.__init__ computes `cwd` (cmd_receive joins every destination onto it): the right-hand side of
+    # `self.cwd = …`, and whether it is exactly the call `os.getcwd()`
+    from wormhole.cli import cli as _cli
+    cwd_expr, cwd_is_getcwd, n_assign = "", False, 0
+    ctree = ast.parse(textwrap.dedent(inspect.getsource(_cli.Config.__init__)))
+    for node in ast.walk(ctree):
+        if isinstance(node, (ast.Assign, ast.AnnAssign, ast.AugAssign)):
+            targets = node.targets if isinstance(node, ast.Assign) else [node.target]
+            for t in targets:
+                if isinstance(t, ast.Attribute) and t.attr == "cwd" and isinstance(t.value, ast.Name) and t.value.id == "self":
+                    n_assign += 1
+                    v = node.value
+                    cwd_expr = ast.unparse(v) if v is not None else ""
+                    cwd_is_getcwd = (isinstance(node, ast.Assign) and isinstance(v, ast.Call) and not v.args and not v.keywords
+                                     and isinstance(v.func, ast.Attribute) and v.func.attr == "getcwd"
+                                     and isinstance(v.func.value, ast.Name) and v.func.value.id == "os"
+                                     and getattr(_cli, "os", None) is os and os.getcwd.__module__ in ("posix", "nt"))
+    cwd_is_getcwd = cwd_is_getcwd and n_assign == 1
     L = ["namespace WV.Gen.Recv",
+         "/-- right-hand side of `self.cwd = …` in cli.Config.__init__ -/",
+         f"def config_cwd_expr : String := {lean_str(cwd_expr)}",
+         "/-- it is the single assignment `self.cwd = os.getcwd()` (the real `os.getcwd`) -/",
+         f"def config_cwd_is_os_getcwd : Bool := {'true' if cwd_is_getcwd else 'false'}",
          "/-- `tmp_destname = self.abs_destname + <this>` in Receiver._handle_file (empty: not of that shape) -/",
          f"def tmp_suffix : String := {lean_str(suffix or '')}",
          "def tmp_suffix_chars : List Char := [" + ", ".join("Char.ofNat %d" % ord(c) for c in (suffix or "")) + "]",
@@ -647,6 +669,7 @@ HINT_GUARD_TARGETS = [
     ("wormhole._hints", None, "parse_hint"),
     ("wormhole._hints", None, "encode_hint"),
     ("wormhole._hints", None, "endpoint_from_hint_obj"),
+    ("wormhole._hints", None, "describe_hint_obj"),
     ("wormhole.transit", "Common", "add_connection_hints"),
     ("wormhole.transit", "Common", "_connect"),
     ("wormhole._dilation.manager", "Manager", "use_hints"),
@@ -680,6 +703,12 @@ class _Guards(ast.NodeVisitor):
 
     def visit_Raise(self, node):
         self.out.append("raise " + (ast.unparse(node.exc) if node.exc else ""))
+
+    def visit_Return(self, node):
+        # the whole returned expression: pins e.g. that describe_hint_obj formats the peer-chosen
+        # hostname with a plain `%s` (no conversion that can raise) and which endpoint gets which fields
+        self.out.append("return " + (ast.unparse(node.value) if node.value is not None else ""))
+        self.generic_visit(node)
 
     def visit_Call(self, node):
         if isinstance(node.func, ast.Attribute) and node.func.attr == "get":
@@ -839,6 +868,41 @@ def extract_transit():
                           for b in n.body for r in ast.walk(b))
                   for n in ast.walk(ast.parse(src)))
     L.append(f"def connection_ready_checks_winner : Bool := {'true' if guarded else 'false'}")
+    # how Common._get_direct_hints ties the listening port's stopListening() to `self._listener_d`:
+    # nested functions that call <port>.stopListening(), and the add* call that attaches them
+    src = textwrap.dedent(inspect.getsource(tr.Common._get_direct_hints))
+    tree = ast.parse(src)
+    stoppers = set()
+    for n in ast.walk(tree):
+        if isinstance(n, (ast.FunctionDef, ast.Lambda)):
+            body = n.body if isinstance(n.body, list) else [n.body]
+            if any(isinstance(c, ast.Call) and isinstance(c.func, ast.Attribute) and c.func.attr == "stopListening"
+                   for b in body for c in ast.walk(b)):
+                stoppers.add(getattr(n, "name", "<lambda>"))
+    on_cb = on_eb = False
+
+    def _is_stopper(a):
+        return (isinstance(a, ast.Name) and a.id in stoppers) or (isinstance(a, ast.Lambda) and "<lambda>" in stoppers
+                                                                   and "stopListening" in ast.dump(a))
+    for n in ast.walk(tree):
+        if (isinstance(n, ast.Call) and isinstance(n.func, ast.Attribute)
+                and ast.unparse(n.func.value) == "self._listener_d"):
+            how = n.func.attr
+            args = list(n.args)
+            if how == "addBoth" and args and _is_stopper(args[0]):
+                on_cb = on_eb = True
+            elif how == "addCallback" and args and _is_stopper(args[0]):
+                on_cb = True
+            elif how == "addErrback" and args and _is_stopper(args[0]):
+                on_eb = True
+            elif how == "addCallbacks":
+                if len(args) > 0 and _is_stopper(args[0]):
+                    on_cb = True
+                if len(args) > 1 and _is_stopper(args[1]):
+                    on_eb = True
+    L.append("/-- does `_listener_d` ending by callback / by errback call the port's `stopListening()` ? -/")
+    L.append(f"def listener_stop_on_callback : Bool := {'true' if on_cb else 'false'}")
+    L.append(f"def listener_stop_on_errback : Bool := {'true' if on_eb else 'false'}")
     L.append("end WV.Gen.Transit")
     return "\n".join(L) + "\n"
 
